@@ -411,13 +411,16 @@ def check(pid, tier, seed, replay=None):
                 f.write('%s %s %s\n' % (c['tag'], c['comp'], ' '.join(str(x) for x in c['input'])))
     if harness_ok:
         cases, monitors, stats, notes, errs = run_components(pid, spec, tier, seed, wd, replay_file)
-        if drv_rc == 0 and cases:
-            model_out = run_model(cases, wd)
-            for tag, comp, ins, obs, nt in cases:
+        # components >= 1000 are recorded histories of real clusters: checked by the property
+        # monitors only (no model replay)
+        mcases = [c for c in cases if int(c[1]) < 1000]
+        if drv_rc == 0 and mcases:
+            model_out = run_model(mcases, wd)
+            for tag, comp, ins, obs, nt in mcases:
                 mo = model_out.get(tag)
                 if mo != obs:
                     mismatches.append((tag, comp, ins, obs, mo))
-            cross_n, cross_bad = coq_crosscheck(cases, model_out, wd, k=spec.get('crosscheck', 150), seed=seed)
+            cross_n, cross_bad = coq_crosscheck(mcases, model_out, wd, k=spec.get('crosscheck', 150), seed=seed)
 
     # ---- monitors: the property predicate on the implementation
     mine = [m for m in monitors if m['prop'] == pid]
@@ -500,7 +503,8 @@ def check(pid, tier, seed, replay=None):
             evaluations=len(cases), distinct_nontrivial=distinct_nt,
             rule=spec.get('rule', ''),
             samples=samples,
-            traces_validated_against_impl=len(cases) - len(mismatches) if model_out else 0,
+            traces_validated_against_impl=len([c for c in cases if int(c[1]) < 1000]) - len(mismatches) if model_out else 0,
+            cluster_histories_monitored=len([c for c in cases if int(c[1]) >= 1000]),
             model_impl_mismatches=len(mismatches),
             in_coq_crosscheck=dict(cases=cross_n, mismatches=len(cross_bad)),
             monitor_alarms=len(mine), known_findings=sorted(seen_known),
